@@ -101,6 +101,8 @@ RefList(cur, op) ==
       [] op.m = "clear"    -> Result(TRUE, <<>>, NoRet, "", FALSE)
       [] op.m = "copy"     -> Result(TRUE, cur, ListV(cur), "", FALSE)
       [] op.m = "add"      -> Result(TRUE, cur, ListV(cur \o op.xs), "", FALSE)
+      \* plain_list + typed_list: a plain list, the plain items first, nothing validated
+      [] op.m = "radd"     -> Result(TRUE, cur, ListV(op.xs \o cur), "", FALSE)
       [] op.m = "mul"      -> Result(TRUE, cur, ListV(Repeat(cur, op.n)), "", FALSE)
       [] op.m = "imul"     -> Result(TRUE, Repeat(cur, op.n), NoRet, "", FALSE)
       [] op.m = "eq"       -> Result(TRUE, cur, BoolV(cur = op.xs), "", FALSE)
@@ -133,6 +135,7 @@ ProxList(cur, op) ==
             ELSE LET ys == Yield(op.src) IN
                  IF AllOk(ys) THEN Result(TRUE, cur, ListV(cur \o NormAll(ys)), "", TRUE)
                  ELSE Raise(cur, "ValueError")
+      [] op.m = "radd" -> Result(TRUE, cur, ListV(op.src.vs \o cur), "", FALSE)
       [] OTHER -> RefList(cur, op)        \* inherited from list unchanged
 
 \* the reference operation: same method on the plain list, arguments normalised
@@ -140,6 +143,7 @@ RefArgs(op) ==
     CASE op.m \in {"append", "insert", "setitem"} -> [op EXCEPT !.x = NormI(op.x).v]
       [] op.m \in {"extend", "iadd", "setslice", "add"} ->
             op @@ [xs |-> IF op.src.k = "same" THEN R ELSE NormAll(Yield(op.src))]
+      [] op.m = "radd" -> op @@ [xs |-> op.src.vs]
       [] OTHER -> op
 Acceptable(op) ==
     CASE op.m \in {"append", "insert", "setitem"} -> NormI(op.x).ok
@@ -266,6 +270,7 @@ ListOps ==
     {[m |-> mm, x |-> x] : mm \in {"append", "remove", "index", "count", "contains"}, x \in ItemCands}
     \cup {[m |-> mm, i |-> i, x |-> x] : mm \in {"insert", "setitem"}, i \in Idx, x \in ItemCands}
     \cup {[m |-> mm, src |-> s] : mm \in {"extend", "iadd", "add"}, s \in Srcs}
+    \cup {[m |-> "radd", src |-> s] : s \in {x \in Srcs : x.k = "list"}}
     \cup {[m |-> "setslice", lo |-> lo, hi |-> hi, src |-> s] : lo \in {0, 1, -1}, hi \in {0, 2, 9}, s \in Srcs}
     \cup {[m |-> mm, i |-> i] : mm \in {"delitem", "popi", "getitem"}, i \in Idx}
     \cup {[m |-> mm, lo |-> lo, hi |-> hi] : mm \in {"delslice", "getslice"}, lo \in {0, 1, -1}, hi \in {0, 2, 9}}
